@@ -46,9 +46,11 @@ def containers(rng, name, blob, tier):
     forms.append(("gz-hdr", {name + ".gz": gen.gz_bytes(blob, level=6, mtime=1700000000, name=name)}, name + ".gz"))
     for lv in ([1, 9] if tier == "quick" else range(1, 10)):
         forms.append(("bz2-l%d" % lv, {name + ".bz2": gen.bz2_bytes(blob, lv)}, name + ".bz2"))
-    for preset, check in ([(0, lzma.CHECK_CRC32), (6, lzma.CHECK_CRC64)] if tier == "quick" else
-                          [(0, lzma.CHECK_NONE), (1, lzma.CHECK_CRC32), (6, lzma.CHECK_CRC64), (9, lzma.CHECK_SHA256)]):
-        forms.append(("xz-p%d-c%d" % (preset, check), {name + ".xz": gen.xz_bytes(blob, preset, check)}, name + ".xz"))
+    for preset, check in ([(0, lzma.CHECK_CRC32), (6, lzma.CHECK_CRC64), (6, lzma.CHECK_SHA256)] if tier == "quick" else
+                          [(0, lzma.CHECK_NONE), (1, lzma.CHECK_CRC32), (6, lzma.CHECK_CRC64), (9, lzma.CHECK_SHA256), (1, lzma.CHECK_SHA256)]):
+        # (the SHA-256 integrity check has its own label: the reader does not implement it -- recorded finding)
+        forms.append(("%s-p%d-c%d" % ("xzsha256" if check == lzma.CHECK_SHA256 else "xz", preset, check),
+                      {name + ".xz": gen.xz_bytes(blob, preset, check)}, name + ".xz"))
     for bid, indep, ck, cs in ([(4, True, False, False), (4, False, True, True)] if tier == "quick" else
                                [(4, True, False, False), (4, False, True, True), (5, True, True, False), (6, False, False, True), (7, True, False, False)]):
         forms.append(("lz4-b%d-%s" % (bid, "i" if indep else "l"), {name + ".lz4": gen.lz4_bytes(blob, bid, indep, ck, cs)}, name + ".lz4"))
